@@ -1,0 +1,16 @@
+package validator
+
+import "fmt"
+
+// recoverAsError converts a panic raised while processing a profile or a data document into the error
+// result of the enclosing pipeline stage, so that the exported entry points return it (and close the
+// event channel) instead of crashing the caller.
+func recoverAsError(err *error) {
+	if r := recover(); r != nil {
+		if e, isError := r.(error); isError {
+			*err = e
+		} else {
+			*err = fmt.Errorf("%v", r)
+		}
+	}
+}
